@@ -138,6 +138,6 @@ def known(w, p):
 def run(ctx):
     g = Gen(ctx.seed * 1000003 + 3)
     n = 120 if ctx.tier == 'quick' else 3000
-    worlds = [render('c03-%d' % i, make_spec(g, ('shadow',) if g.r.random() < 0.08 else ())) for i in range(n)]
+    worlds = [render('c03-%d' % i, make_spec(g, ('shadow',) if g.r.random() < 0.08 else (('big',) if g.r.random() < 0.12 else ()))) for i in range(n)]
     run_suite(ctx, 'match.addressing', worlds, known=known, chunk=150)
     findings.report(ctx, 'C03')
